@@ -239,4 +239,1086 @@ theorem own_step {s s' : State} {i : Nat} {o o' : Obj} (O : Own s) (hi : s.obj i
           intro e; subst e; rw [hi] at hk; cases hk; exact h2 ⟨hfk, ek.symm⟩
         exact ⟨k, ok, by rw [hobj k]; simp [hki, hk], hfk, ek⟩
 
+/-! ### `add` -/
+
+theorem take_set_succ {α} (l : List α) (k : Nat) (h : α) (hk : k < l.length) :
+    (l.set k h).take (k + 1) = l.take k ++ [h] := by
+  induction l generalizing k with
+  | nil => simp at hk
+  | cons x t ih =>
+      cases k with
+      | zero => simp
+      | succ k => simp at hk; simp [ih k hk]
+
+/-- what a sequence of `add`s on object `i` (initially `o`) does -/
+structure AddSpec (s : State) (i : Nat) (o : Obj) (hs : List Ptr) (s' : State) : Prop where
+  heap : HeapOk s'
+  own : Own s'
+  obj_i : ∃ o', s'.obj i = some o' ∧ o'.typed = o.typed ∧ o'.value = o.value ∧
+      handlesOf s' o' = handlesOf s o ++ hs
+  obj_other : ∀ j, j ≠ i → s'.obj j = s.obj j
+  mem_other : ∀ j oj, j ≠ i → s.obj j = some oj → oj.cf % 2 = 1 → s'.mem.get oj.ext = s.mem.get oj.ext
+  len : s'.objs.length = s.objs.length
+  queue : s'.queue = s.queue
+  active : s'.active = s.active
+  given : s'.given = s.given
+  popped : s'.popped = s.popped
+  resumed : resumed s' = resumed s
+
+theorem addInl_spec {s : State} {i : Nat} {o : Obj} (H : HeapOk s) (O : Own s) (hi : s.obj i = some o)
+    (hf : ¬ o.cf % 2 = 1) (hc : o.cf / 2 < inlineCount) (h : Ptr) : AddSpec s i o [h] (addInl s i o h) := by
+  have hil := obj_lt hi
+  have w := O.wf i o hi
+  have hf0 : o.cf % 2 = 0 := by omega
+  simp only [inlineCount] at hc
+  have hobj : ∀ k, (addInl s i o h).obj k = if k = i then some { o with inl := o.inl.set (o.cf / 2) h, cf := o.cf + 2 } else s.obj k :=
+    fun k => obj_setObj s i _ k hil
+  have hf' : ¬ (o.cf + 2) % 2 = 1 := by omega
+  refine ⟨?_, ?_, ?_, ?_, ?_, ?_, rfl, rfl, rfl, rfl, rfl⟩
+  · exact heapOk_of_eq H rfl rfl rfl [] (by simp [addInl])
+  · refine own_step O hi hobj (fun a _ _ => rfl) ⟨?_, ?_, ?_⟩ ?_ ?_
+    · simp [w.inl_len]
+    · intro _; show (o.cf + 2) / 2 ≤ 3; omega
+    · intro hh; exact absurd hh hf'
+    · intro hh; exact absurd hh hf'
+    · intro hh; exact absurd hh hf
+  · refine ⟨{ o with inl := o.inl.set (o.cf / 2) h, cf := o.cf + 2 }, by rw [hobj i]; simp, rfl, rfl, ?_⟩
+    simp only [handlesOf, hf, hf', if_false]
+    have : (o.cf + 2) / 2 = o.cf / 2 + 1 := by omega
+    rw [this, take_set_succ _ _ _ (by rw [w.inl_len]; exact hc)]
+  · intro j hj; rw [hobj j]; simp [hj]
+  · intro j oj _ _ _; rfl
+  · simp [addInl]
+
+
+theorem addExt_spec {s : State} {i : Nat} {o : Obj} (H : HeapOk s) (O : Own s) (hi : s.obj i = some o)
+    (hf : o.cf % 2 = 1) (hc : ¬ o.cf / 2 = o.cap) (h : Ptr) : AddSpec s i o [h] (addExt s i o h) := by
+  have hil := obj_lt hi
+  have w := O.wf i o hi
+  obtain ⟨c, hg, hlen, hle, hpos⟩ := w.ext_ok hf
+  have hk : o.cf / 2 < c.length := by omega
+  have hf' : (o.cf + 2) % 2 = 1 := by omega
+  have hdiv : (o.cf + 2) / 2 = o.cf / 2 + 1 := by omega
+  have hst : addExt s i o h = setObj { s with mem := s.mem.set o.ext (c.set (o.cf / 2) h) } i (some { o with cf := o.cf + 2 }) := by
+    simp only [addExt, writeCell_eq hg hk]
+  rw [hst]
+  have hobj : ∀ k, (setObj { s with mem := s.mem.set o.ext (c.set (o.cf / 2) h) } i (some { o with cf := o.cf + 2 })).obj k
+      = if k = i then some { o with cf := o.cf + 2 } else s.obj k :=
+    fun k => obj_setObj _ i _ k hil
+  refine ⟨?_, ?_, ?_, ?_, ?_, ?_, rfl, rfl, rfl, rfl, rfl⟩
+  · exact heapOk_of_eq (heapOk_setCells H hg _) rfl rfl rfl [] (by simp)
+  · refine own_step O hi hobj ?_ ⟨w.inl_len, ?_, ?_⟩ ?_ ?_
+    · intro a ha _
+      simp only [setObj_mem, Mem.get_set, if_neg (ha hf)]
+    · intro hh; have hh' : (o.cf + 2) % 2 = 0 := hh; omega
+    · intro _
+      refine ⟨c.set (o.cf / 2) h, by simp [Mem.get_set], by simp [hlen], ?_, hpos⟩
+      show (o.cf + 2) / 2 ≤ o.cap; omega
+    · intro _; exact Or.inl ⟨hf, rfl⟩
+    · intro _; exact Or.inl ⟨hf', rfl⟩
+  · refine ⟨{ o with cf := o.cf + 2 }, by rw [hobj i]; simp, rfl, rfl, ?_⟩
+    simp only [handlesOf, hf, hf', if_true, cellsOf, setObj_mem, Mem.get_set, hg, Option.getD_some, hdiv]
+    exact take_set_succ _ _ _ hk
+  · intro j hj; rw [hobj j]; simp [hj]
+  · intro j oj hj hoj hfj
+    have : oj.ext ≠ o.ext := fun e => hj (O.excl j i oj o hoj hi hfj hf e)
+    simp only [setObj_mem, Mem.get_set, if_neg this]
+  · simp
+
+
+/-- `s'` differs from `s` only in the heap fields and by non-resumption events in the trace -/
+structure HeapStep (s s' : State) : Prop where
+  objs : s'.objs = s.objs
+  queue : s'.queue = s.queue
+  active : s'.active = s.active
+  given : s'.given = s.given
+  popped : s'.popped = s.popped
+  resumed : resumed s' = resumed s
+
+theorem HeapStep.refl (s : State) : HeapStep s s := ⟨rfl, rfl, rfl, rfl, rfl, rfl⟩
+theorem HeapStep.trans {a b c : State} (h1 : HeapStep a b) (h2 : HeapStep b c) : HeapStep a c :=
+  ⟨h2.objs.trans h1.objs, h2.queue.trans h1.queue, h2.active.trans h1.active, h2.given.trans h1.given,
+   h2.popped.trans h1.popped, h2.resumed.trans h1.resumed⟩
+theorem HeapStep.obj {s s' : State} (h : HeapStep s s') (k : Nat) : s'.obj k = s.obj k := by
+  simp [State.obj, h.objs]
+
+theorem heapStep_alloc (s : State) (cap : Nat) : HeapStep s (allocBlk s cap) :=
+  ⟨rfl, rfl, rfl, rfl, rfl, by simp [resumed, allocBlk, List.filterMap_append, Ev.res?]⟩
+theorem heapStep_free {s : State} {a : Nat} {c : List Ptr} (h : s.mem.get a = some c) : HeapStep s (freeBlk s a) := by
+  rw [freeBlk_eq h]
+  exact ⟨rfl, rfl, rfl, rfl, rfl, by simp [resumed, List.filterMap_append, Ev.res?]⟩
+theorem heapStep_setCells (s : State) (m : Mem) : HeapStep s { s with mem := m } := ⟨rfl, rfl, rfl, rfl, rfl, rfl⟩
+
+theorem addSpill_spec {s : State} {i : Nat} {o : Obj} (H : HeapOk s) (O : Own s) (hi : s.obj i = some o)
+    (hf : ¬ o.cf % 2 = 1) (hc : ¬ o.cf / 2 < inlineCount) (h : Ptr) : AddSpec s i o [h] (addSpill s i o h) := by
+  have hil := obj_lt hi
+  have w := O.wf i o hi
+  simp only [inlineCount] at hc
+  have hk : o.cf / 2 = 3 := by have := w.inl_le (by omega); omega
+  have hf' : (o.cf + 3) % 2 = 1 := by omega
+  have hdiv : (o.cf + 3) / 2 = 4 := by omega
+  have hnone := H.get_next
+  obtain ⟨x0, x1, x2, hx⟩ : ∃ x0 x1 x2, o.inl = [x0, x1, x2] := by
+    have := w.inl_len
+    match hm : o.inl, this with
+    | [a, b, c], _ => exact ⟨a, b, c, rfl⟩
+  -- the heap primitives, one after the other
+  have e1 : (allocBlk s (o.cf / 2 * 2)).mem.get s.nextAddr = some (List.replicate 6 junk) := by
+    simp [allocBlk, Mem.get_set, hk]
+  have e2 := copyInto_eq (src := o.inl) e1 (by simp [w.inl_len])
+  have e3 : (copyInto (allocBlk s (o.cf / 2 * 2)) s.nextAddr o.inl).mem.get s.nextAddr
+      = some [x0, x1, x2, junk, junk, junk] := by
+    rw [e2]; simp [Mem.get_set, hx, List.replicate]
+  have e4 := writeCell_eq e3 (k := o.cf / 2) (by simp [hk]) h
+  have H1 := heapOk_alloc H (o.cf / 2 * 2)
+  have H2 : HeapOk (copyInto (allocBlk s (o.cf / 2 * 2)) s.nextAddr o.inl) := by
+    rw [e2]; exact heapOk_setCells H1 e1 _
+  have H3 : HeapOk (writeCell (copyInto (allocBlk s (o.cf / 2 * 2)) s.nextAddr o.inl) s.nextAddr (o.cf / 2) h) := by
+    rw [e4]; exact heapOk_setCells H2 e3 _
+  have S3 : HeapStep s (writeCell (copyInto (allocBlk s (o.cf / 2 * 2)) s.nextAddr o.inl) s.nextAddr (o.cf / 2) h) := by
+    have S2 : HeapStep (allocBlk s (o.cf / 2 * 2)) (copyInto (allocBlk s (o.cf / 2 * 2)) s.nextAddr o.inl) := by
+      rw [e2]; exact heapStep_setCells _ _
+    rw [e4]
+    exact ((heapStep_alloc s (o.cf / 2 * 2)).trans S2).trans (heapStep_setCells _ _)
+  have G3 : ∀ a, (writeCell (copyInto (allocBlk s (o.cf / 2 * 2)) s.nextAddr o.inl) s.nextAddr (o.cf / 2) h).mem.get a
+      = if a = s.nextAddr then some [x0, x1, x2, h, junk, junk] else s.mem.get a := by
+    intro a
+    rw [e4]; simp only [Mem.get_set]
+    split
+    · simp [hk]
+    · rw [e2]; simp only [Mem.get_set, allocBlk]; simp [*]
+  generalize hW : writeCell (copyInto (allocBlk s (o.cf / 2 * 2)) s.nextAddr o.inl) s.nextAddr (o.cf / 2) h = W at H3 S3 G3
+  have hst : addSpill s i o h = setObj W i
+      (some { o with ext := s.nextAddr, cap := o.cf / 2 * 2, cf := o.cf + 3, inl := [junk, junk, junk] }) := by
+    simp only [addSpill, hW]
+  rw [hst]
+  have hilW : i < W.objs.length := by rw [S3.objs]; exact hil
+  have hobj : ∀ k, (setObj W i (some { o with ext := s.nextAddr, cap := o.cf / 2 * 2, cf := o.cf + 3, inl := [junk, junk, junk] })).obj k
+      = if k = i then some { o with ext := s.nextAddr, cap := o.cf / 2 * 2, cf := o.cf + 3, inl := [junk, junk, junk] } else s.obj k := by
+    intro k; rw [obj_setObj _ i _ k hilW, S3.obj]
+  refine ⟨?_, ?_, ?_, ?_, ?_, ?_, S3.queue, S3.active, S3.given, S3.popped, ?_⟩
+  · exact heapOk_of_eq H3 rfl rfl rfl [] (by simp)
+  · refine own_step O hi hobj ?_ ⟨rfl, ?_, ?_⟩ ?_ ?_
+    · intro a _ ha
+      have : a ≠ s.nextAddr := ha hf'
+      simp only [setObj_mem, G3, if_neg this]
+    · intro hh; have hh' : (o.cf + 3) % 2 = 0 := hh; omega
+    · intro _
+      refine ⟨[x0, x1, x2, h, junk, junk], by simp [G3], by simp [hk], ?_, by simp [hk]⟩
+      show (o.cf + 3) / 2 ≤ o.cf / 2 * 2; omega
+    · intro _; exact Or.inr hnone
+    · intro hh; exact absurd hh hf
+  · refine ⟨{ o with ext := s.nextAddr, cap := o.cf / 2 * 2, cf := o.cf + 3, inl := [junk, junk, junk] },
+      by rw [hobj i]; simp, rfl, rfl, ?_⟩
+    simp only [handlesOf, hf, hf', if_true, if_false, cellsOf, setObj_mem, G3, Option.getD_some, hdiv, hk, hx]
+    simp
+  · intro j hj; rw [hobj j]; simp [hj]
+  · intro j oj hj hoj hfj
+    obtain ⟨c, hc, -⟩ := (O.wf j oj hoj).ext_ok hfj
+    have : oj.ext ≠ s.nextAddr := Nat.ne_of_lt (H.lt_of_get hc)
+    simp only [setObj_mem, G3, if_neg this]
+  · simp [S3.objs]
+  · exact S3.resumed
+
+
+theorem addGrow_spec {s : State} {i : Nat} {o : Obj} (H : HeapOk s) (O : Own s) (hi : s.obj i = some o)
+    (hf : o.cf % 2 = 1) (hc : o.cf / 2 = o.cap) (h : Ptr) : AddSpec s i o [h] (addGrow s i o h) := by
+  have hil := obj_lt hi
+  have w := O.wf i o hi
+  obtain ⟨c, hg, hlen, hle, hpos⟩ := w.ext_ok hf
+  have hk : c.length = o.cf / 2 := by omega
+  have hkpos : 0 < o.cf / 2 := by omega
+  have hf' : (o.cf + 2) % 2 = 1 := by omega
+  have hdiv : (o.cf + 2) / 2 = o.cf / 2 + 1 := by omega
+  have hnone := H.get_next
+  have hne : o.ext ≠ s.nextAddr := Nat.ne_of_lt (H.lt_of_get hg)
+  have hco : cellsOf s o.ext = c := by simp [cellsOf, hg]
+  have htk : (c.take (o.cf / 2)).length = o.cf / 2 := by simp [hk]
+  simp only [addGrow, hco]
+  have e1 : (allocBlk s (o.cf / 2 * 2)).mem.get s.nextAddr = some (List.replicate (o.cf / 2 * 2) junk) := by
+    simp [allocBlk, Mem.get_set]
+  have e2 := copyInto_eq (src := c.take (o.cf / 2)) e1 (by simp; omega)
+  have H1 := heapOk_alloc H (o.cf / 2 * 2)
+  have S1 := heapStep_alloc s (o.cf / 2 * 2)
+  generalize hA : allocBlk s (o.cf / 2 * 2) = A at e1 e2 H1 S1
+  have gA : ∀ a, A.mem.get a = if a = s.nextAddr then some (List.replicate (o.cf / 2 * 2) junk) else s.mem.get a := by
+    intro a; rw [← hA]; simp [allocBlk, Mem.get_set]
+  have H2 : HeapOk (copyInto A s.nextAddr (c.take (o.cf / 2))) := by rw [e2]; exact heapOk_setCells H1 e1 _
+  have S2 : HeapStep s (copyInto A s.nextAddr (c.take (o.cf / 2))) := by
+    rw [e2]; exact S1.trans (heapStep_setCells _ _)
+  have gC : ∀ a, (copyInto A s.nextAddr (c.take (o.cf / 2))).mem.get a
+      = if a = s.nextAddr then some (c.take (o.cf / 2) ++ (List.replicate (o.cf / 2 * 2) junk).drop (o.cf / 2))
+        else s.mem.get a := by
+    intro a; rw [e2]; simp only [Mem.get_set, gA, htk]; split <;> rfl
+  generalize hC : copyInto A s.nextAddr (c.take (o.cf / 2)) = C at H2 S2 gC
+  have e3 : C.mem.get o.ext = some c := by rw [gC, if_neg hne, hg]
+  have H3 := heapOk_free H2 e3
+  have S3 := S2.trans (heapStep_free e3)
+  have gF : ∀ a, (freeBlk C o.ext).mem.get a
+      = if a = s.nextAddr then some (c.take (o.cf / 2) ++ (List.replicate (o.cf / 2 * 2) junk).drop (o.cf / 2))
+        else if a = o.ext then none else s.mem.get a := by
+    intro a; rw [freeBlk_eq e3]; simp only [Mem.get_del, gC]
+    by_cases e : a = s.nextAddr
+    · subst e; simp [Ne.symm hne]
+    · simp [e]
+  generalize hF : freeBlk C o.ext = F at H3 S3 gF
+  have e4 : F.mem.get s.nextAddr
+      = some (c.take (o.cf / 2) ++ (List.replicate (o.cf / 2 * 2) junk).drop (o.cf / 2)) := by rw [gF]; simp
+  have e5 := writeCell_eq e4 (k := o.cf / 2) (by simp [hk]; omega) h
+  have H4 : HeapOk (writeCell F s.nextAddr (o.cf / 2) h) := by rw [e5]; exact heapOk_setCells H3 e4 _
+  have S4 : HeapStep s (writeCell F s.nextAddr (o.cf / 2) h) := by rw [e5]; exact S3.trans (heapStep_setCells _ _)
+  have gW : ∀ a, (writeCell F s.nextAddr (o.cf / 2) h).mem.get a
+      = if a = s.nextAddr then
+          some ((c.take (o.cf / 2) ++ (List.replicate (o.cf / 2 * 2) junk).drop (o.cf / 2)).set (o.cf / 2) h)
+        else if a = o.ext then none else s.mem.get a := by
+    intro a; rw [e5]; simp only [Mem.get_set, gF]; split <;> simp [*]
+  generalize hW : writeCell F s.nextAddr (o.cf / 2) h = W at H4 S4 gW
+  have hilW : i < W.objs.length := by rw [S4.objs]; exact hil
+  have hobj : ∀ k, (setObj W i (some { o with ext := s.nextAddr, cap := o.cf / 2 * 2, cf := o.cf + 2 })).obj k
+      = if k = i then some { o with ext := s.nextAddr, cap := o.cf / 2 * 2, cf := o.cf + 2 } else s.obj k := by
+    intro k; rw [obj_setObj _ i _ k hilW, S4.obj]
+  refine ⟨?_, ?_, ?_, ?_, ?_, ?_, S4.queue, S4.active, S4.given, S4.popped, ?_⟩
+  · exact heapOk_of_eq H4 rfl rfl rfl [] (by simp)
+  · refine own_step O hi hobj ?_ ⟨w.inl_len, ?_, ?_⟩ ?_ ?_
+    · intro a ha ha'
+      have h1 : a ≠ s.nextAddr := ha' hf'
+      have h2 : a ≠ o.ext := ha hf
+      simp only [setObj_mem, gW, if_neg h1, if_neg h2]
+    · intro hh; have hh' : (o.cf + 2) % 2 = 0 := hh; omega
+    · intro _
+      refine ⟨(c.take (o.cf / 2) ++ (List.replicate (o.cf / 2 * 2) junk).drop (o.cf / 2)).set (o.cf / 2) h,
+        by simp only [setObj_mem, gW, if_true], ?_, ?_, ?_⟩
+      · simp [hk]; show o.cf / 2 + (o.cf / 2 * 2 - o.cf / 2) = o.cf / 2 * 2; omega
+      · show (o.cf + 2) / 2 ≤ o.cf / 2 * 2; omega
+      · show 0 < o.cf / 2 * 2; omega
+    · intro _; exact Or.inr hnone
+    · intro _; right; simp only [setObj_mem, gW, if_neg hne, if_true]
+  · refine ⟨{ o with ext := s.nextAddr, cap := o.cf / 2 * 2, cf := o.cf + 2 }, by rw [hobj i]; simp, rfl, rfl, ?_⟩
+    simp only [handlesOf, hf, hf', if_true, cellsOf, setObj_mem, gW, Option.getD_some, hdiv, hg]
+    rw [take_set_succ _ _ _ (by simp [hk]; omega)]
+    congr 1
+    rw [List.take_append_of_le_length (by simp [hk])]
+    rw [List.take_take, Nat.min_self]
+  · intro j hj; rw [hobj j]; simp [hj]
+  · intro j oj hj hoj hfj
+    obtain ⟨cj, hcj, -⟩ := (O.wf j oj hoj).ext_ok hfj
+    have h1 : oj.ext ≠ s.nextAddr := Nat.ne_of_lt (H.lt_of_get hcj)
+    have h2 : oj.ext ≠ o.ext := fun e => hj (O.excl j i oj o hoj hi hfj hf e)
+    simp only [setObj_mem, gW, if_neg h1, if_neg h2]
+  · simp [S4.objs]
+  · exact S4.resumed
+
+
+theorem addObj_spec {s : State} {i : Nat} {o : Obj} (H : HeapOk s) (O : Own s) (hi : s.obj i = some o) (h : Ptr) :
+    AddSpec s i o [h] (addObj s i o h) := by
+  unfold addObj
+  split
+  · split
+    · exact addGrow_spec H O hi ‹_› ‹_› h
+    · exact addExt_spec H O hi ‹_› ‹_› h
+  · split
+    · exact addInl_spec H O hi ‹_› ‹_› h
+    · exact addSpill_spec H O hi ‹_› ‹_› h
+
+theorem add_spec {s : State} {i : Nat} {o : Obj} (H : HeapOk s) (O : Own s) (hi : s.obj i = some o) (h : Ptr) :
+    AddSpec s i o [h] (add s i h) := by
+  simp only [add, hi]; exact addObj_spec H O hi h
+
+theorem AddSpec.nil {s : State} {i : Nat} {o : Obj} (H : HeapOk s) (O : Own s) (hi : s.obj i = some o) :
+    AddSpec s i o [] s :=
+  ⟨H, O, ⟨o, hi, rfl, rfl, by simp⟩, fun _ _ => rfl, fun _ _ _ _ _ => rfl, rfl, rfl, rfl, rfl, rfl, rfl⟩
+
+theorem AddSpec.trans {s s1 s2 : State} {i : Nat} {o : Obj} {hs hs' : List Ptr} (A : AddSpec s i o hs s1)
+    (B : ∀ o1, s1.obj i = some o1 → AddSpec s1 i o1 hs' s2) : AddSpec s i o (hs ++ hs') s2 := by
+  obtain ⟨o1, h1, ht, hv, hh⟩ := A.obj_i
+  have B := B o1 h1
+  obtain ⟨o2, h2, ht2, hv2, hh2⟩ := B.obj_i
+  refine ⟨B.heap, B.own, ⟨o2, h2, ht2.trans ht, hv2.trans hv, by rw [hh2, hh, List.append_assoc]⟩, ?_, ?_,
+    B.len.trans A.len, B.queue.trans A.queue, B.active.trans A.active, B.given.trans A.given,
+    B.popped.trans A.popped, B.resumed.trans A.resumed⟩
+  · intro j hj; rw [B.obj_other j hj, A.obj_other j hj]
+  · intro j oj hj hoj hfj
+    rw [B.mem_other j oj hj (by rw [A.obj_other j hj]; exact hoj) hfj, A.mem_other j oj hj hoj hfj]
+
+theorem addAll_spec {s : State} {i : Nat} {o : Obj} (H : HeapOk s) (O : Own s) (hi : s.obj i = some o)
+    (hs : List Ptr) : AddSpec s i o hs (addAll s i hs) := by
+  induction hs generalizing s o with
+  | nil => exact AddSpec.nil H O hi
+  | cons h t ih =>
+      have A := add_spec H O hi h
+      have := A.trans (hs' := t) (s2 := addAll (add s i h) i t) (fun o1 h1 => ih A.heap A.own h1)
+      simpa [addAll] using this
+
+/-- handles of another object are not affected -/
+theorem AddSpec.handles_other {s s' : State} {i : Nat} {o : Obj} {hs : List Ptr} (A : AddSpec s i o hs s')
+    {j : Nat} (hj : j ≠ i) : handles s' j = handles s j := by
+  simp only [handles, A.obj_other j hj]
+  cases hoj : s.obj j with
+  | none => rfl
+  | some oj =>
+      simp only [handlesOf, cellsOf]
+      split
+      · rw [A.mem_other j oj hj hoj ‹_›]
+      · rfl
+
+theorem AddSpec.handles_self {s s' : State} {i : Nat} {o : Obj} {hs : List Ptr} (A : AddSpec s i o hs s')
+    (hi : s.obj i = some o) : handles s' i = handles s i ++ hs := by
+  obtain ⟨o1, h1, -, -, hh⟩ := A.obj_i
+  simp only [handles, h1, hi, hh]
+
+/-! ### `clear_internal` -/
+
+/-- nothing but the pool and the heap changed -/
+structure Quiet (s s' : State) : Prop where
+  len : s'.objs.length = s.objs.length
+  queue : s'.queue = s.queue
+  active : s'.active = s.active
+  given : s'.given = s.given
+  popped : s'.popped = s.popped
+  resumed : resumed s' = resumed s
+
+theorem Quiet.refl (s : State) : Quiet s s := ⟨rfl, rfl, rfl, rfl, rfl, rfl⟩
+theorem Quiet.trans {a b c : State} (h1 : Quiet a b) (h2 : Quiet b c) : Quiet a c :=
+  ⟨h2.len.trans h1.len, h2.queue.trans h1.queue, h2.active.trans h1.active, h2.given.trans h1.given,
+   h2.popped.trans h1.popped, h2.resumed.trans h1.resumed⟩
+theorem HeapStep.quiet {s s' : State} (h : HeapStep s s') : Quiet s s' :=
+  ⟨by rw [h.objs], h.queue, h.active, h.given, h.popped, h.resumed⟩
+theorem quiet_setObj (s : State) (i : Nat) (o : Option Obj) : Quiet s (setObj s i o) :=
+  ⟨by simp, rfl, rfl, rfl, rfl, rfl⟩
+theorem AddSpec.quiet {s s' : State} {i : Nat} {o : Obj} {hs : List Ptr} (A : AddSpec s i o hs s') : Quiet s s' :=
+  ⟨A.len, A.queue, A.active, A.given, A.popped, A.resumed⟩
+
+theorem handles_congr {s s' : State} {k : Nat} (ho : s'.obj k = s.obj k)
+    (hm : ∀ ok, s.obj k = some ok → ok.cf % 2 = 1 → s'.mem.get ok.ext = s.mem.get ok.ext) :
+    handles s' k = handles s k := by
+  simp only [handles, ho]
+  cases hok : s.obj k with
+  | none => rfl
+  | some ok =>
+      simp only [handlesOf, cellsOf]
+      split
+      · rw [hm ok hok ‹_›]
+      · rfl
+
+/-- what `clear_internal()` does to object `j` -/
+structure ClearSpec (s : State) (j : Nat) (oj : Obj) (s' : State) : Prop where
+  heap : HeapOk s'
+  own : Own s'
+  obj : ∀ k, s'.obj k = if k = j then some { oj with cf := 0 } else s.obj k
+  handles_self : handles s' j = []
+  handles_other : ∀ k, k ≠ j → handles s' k = handles s k
+  quiet : Quiet s s'
+  mem_other : ∀ k ok, k ≠ j → s.obj k = some ok → ok.cf % 2 = 1 → s'.mem.get ok.ext = s.mem.get ok.ext
+
+theorem clearInternal_spec {s : State} {j : Nat} {oj : Obj} (H : HeapOk s) (O : Own s) (hj : s.obj j = some oj) :
+    ClearSpec s j oj (clearInternal s j oj) := by
+  have hjl := obj_lt hj
+  have w := O.wf j oj hj
+  by_cases hf : oj.cf % 2 = 1
+  · obtain ⟨c, hg, -⟩ := w.ext_ok hf
+    have hst : clearInternal s j oj = setObj (freeBlk s oj.ext) j (some { oj with cf := 0 }) := by
+      simp [clearInternal, hf]
+    rw [hst]
+    have S1 := heapStep_free hg
+    have H1 := heapOk_free H hg
+    have g1 : ∀ a, (freeBlk s oj.ext).mem.get a = if a = oj.ext then none else s.mem.get a := by
+      intro a; rw [freeBlk_eq hg]; simp only [Mem.get_del]
+    generalize freeBlk s oj.ext = F at S1 H1 g1
+    have hjF : j < F.objs.length := by rw [S1.objs]; exact hjl
+    have hobj : ∀ k, (setObj F j (some { oj with cf := 0 })).obj k = if k = j then some { oj with cf := 0 } else s.obj k := by
+      intro k; rw [obj_setObj _ j _ k hjF, S1.obj]
+    have hmo : ∀ k ok, k ≠ j → s.obj k = some ok → ok.cf % 2 = 1 →
+        (setObj F j (some { oj with cf := 0 })).mem.get ok.ext = s.mem.get ok.ext := by
+      intro k ok hk hok hfk
+      have : ok.ext ≠ oj.ext := fun e => hk (O.excl k j ok oj hok hj hfk hf e)
+      simp only [setObj_mem, g1, if_neg this]
+    refine ⟨heapOk_of_eq H1 rfl rfl rfl [] (by simp), ?_, hobj, ?_, ?_, S1.quiet.trans (quiet_setObj _ _ _), hmo⟩
+    · refine own_step O hj hobj ?_ ⟨w.inl_len, fun _ => by show 0 / 2 ≤ 3; omega, fun hh => by cases hh⟩
+        (fun hh => by cases hh) ?_
+      · intro a ha _; simp only [setObj_mem, g1, if_neg (ha hf)]
+      · intro _; right; simp only [setObj_mem, g1, if_true]
+    · simp [handles, hobj j, handlesOf]
+    · intro k hk
+      exact handles_congr (by rw [hobj k]; simp [hk]) (fun ok hok hfk => hmo k ok hk hok hfk)
+  · have hst : clearInternal s j oj = setObj s j (some { oj with cf := 0 }) := by
+      simp [clearInternal, hf]
+    rw [hst]
+    have hobj : ∀ k, (setObj s j (some { oj with cf := 0 })).obj k = if k = j then some { oj with cf := 0 } else s.obj k :=
+      fun k => obj_setObj _ j _ k hjl
+    refine ⟨heapOk_of_eq H rfl rfl rfl [] (by simp), ?_, hobj, ?_, ?_, quiet_setObj _ _ _, fun _ _ _ _ _ => rfl⟩
+    · exact own_step O hj hobj (fun a _ _ => rfl) ⟨w.inl_len, fun _ => by show 0 / 2 ≤ 3; omega, fun hh => by cases hh⟩
+        (fun hh => by cases hh) (fun hh => absurd hh hf)
+    · simp [handles, hobj j, handlesOf]
+    · intro k hk
+      exact handles_congr (by rw [hobj k]; simp [hk]) (fun _ _ _ => rfl)
+
+/-! ### the global invariant -/
+
+theorem take_succ_getD {α} (l : List α) (n : Nat) (d : α) (hn : n < l.length) :
+    l.take (n + 1) = l.take n ++ [l.getD n d] := by
+  induction l generalizing n with
+  | nil => simp at hn
+  | cons x t ih =>
+      cases n with
+      | zero => simp
+      | succ n => simp at hn; simp [ih n hn]
+
+/-! ### all handles held by the pool -/
+def heldAll (H : Nat → List Ptr) : Nat → List Ptr
+  | 0 => []
+  | n + 1 => heldAll H n ++ H n
+
+def held (s : State) : List Ptr := heldAll (handles s) s.objs.length
+
+theorem heldAll_congr {H H' : Nat → List Ptr} {n : Nat} (h : ∀ k, k < n → H' k = H k) : heldAll H' n = heldAll H n := by
+  induction n with
+  | zero => rfl
+  | succ n ih => simp only [heldAll, ih (fun k hk => h k (Nat.lt_succ_of_lt hk)), h n (Nat.lt_succ_self n)]
+
+theorem count_heldAll_change1 {H H' : Nat → List Ptr} {n i : Nat} (hi : i < n) (ho : ∀ k, k ≠ i → H' k = H k)
+    (h : Ptr) : (heldAll H' n).count h + (H i).count h = (heldAll H n).count h + (H' i).count h := by
+  induction n with
+  | zero => omega
+  | succ n ih =>
+      simp only [heldAll, List.count_append]
+      by_cases e : i = n
+      · subst e
+        rw [heldAll_congr (H := H) (H' := H') (fun k hk => ho k (Nat.ne_of_lt hk))]
+        omega
+      · have := ih (by omega)
+        rw [ho n (fun e' => e e'.symm)]
+        omega
+
+theorem count_heldAll_change2 {H H' : Nat → List Ptr} {n i j : Nat} (hij : i ≠ j) (hi : i < n) (hj : j < n)
+    (ho : ∀ k, k ≠ i → k ≠ j → H' k = H k) (h : Ptr) :
+    (heldAll H' n).count h + (H i).count h + (H j).count h
+      = (heldAll H n).count h + (H' i).count h + (H' j).count h := by
+  have a := count_heldAll_change1 (H := H) (H' := fun k => if k = j then H j else H' k) hi
+    (by intro k hk; by_cases e : k = j <;> simp [e, ho k hk]) h
+  have b := count_heldAll_change1 (H := fun k => if k = j then H j else H' k) (H' := H') hj
+    (by intro k hk; simp [hk]) h
+  simp only [if_neg hij, if_true] at a b
+  omega
+
+theorem handles_none {s : State} {i : Nat} (h : s.obj i = none) : handles s i = [] := by simp [handles, h]
+
+structure Inv (s : State) : Prop where
+  heap : HeapOk s
+  own : Own s
+  idle : s.active = false → s.queue = []
+  conserve : ∀ h, s.given.count h
+      = (held s).count h + s.queue.count h + (resumed s).count h + s.popped.count h
+
+theorem own_of_eq {s s' : State} (O : Own s) (ho : s'.objs = s.objs) (hm : s'.mem = s.mem) : Own s' := by
+  have hobj : ∀ k, s'.obj k = s.obj k := fun k => by simp [State.obj, ho]
+  refine ⟨?_, ?_, ?_⟩
+  · intro i o hi; rw [hobj] at hi
+    have w := O.wf i o hi
+    exact ⟨w.inl_len, w.inl_le, by rw [hm]; exact w.ext_ok⟩
+  · intro i j oi oj hi hj; rw [hobj] at hi hj; exact O.excl i j oi oj hi hj
+  · intro a c hc; rw [hm] at hc
+    obtain ⟨i, o, h1, h2, h3⟩ := O.owned a c hc
+    exact ⟨i, o, by rw [hobj]; exact h1, h2, h3⟩
+
+theorem handles_of_eq {s s' : State} (ho : s'.objs = s.objs) (hm : s'.mem = s.mem) (k : Nat) :
+    handles s' k = handles s k := by
+  simp [handles, State.obj, ho, handlesOf, cellsOf, hm]
+
+theorem held_of_eq {s s' : State} (ho : s'.objs = s.objs) (hm : s'.mem = s.mem) : held s' = held s := by
+  simp only [held, ho]; exact heldAll_congr (fun k _ => handles_of_eq ho hm k)
+
+theorem inv_init (n : Nat) (a : Bool) : Inv (init n a) := by
+  have hobj : ∀ k, (init n a).obj k = none := by
+    intro k; simp only [State.obj, init, List.getElem?_replicate]; split <;> rfl
+  refine ⟨⟨?_, ?_, ?_, ?_, ?_, ?_⟩, ⟨?_, ?_, ?_⟩, ?_, ?_⟩
+  · intro x; simp [init]
+  · simp [init]
+  · intro x hx; simp [init] at hx
+  · simp [init, news, deletes]
+  · simp [init]
+  · simp [init]
+  · intro i o hi; rw [hobj] at hi; cases hi
+  · intro i j oi oj hi; rw [hobj] at hi; cases hi
+  · intro x c hc; simp [init] at hc
+  · intro _; rfl
+  · intro h
+    have : held (init n a) = [] := by
+      simp only [held]
+      generalize (init n a).objs.length = m
+      induction m with
+      | zero => rfl
+      | succ m ih => simp [heldAll, ih, handles_none (hobj m)]
+    rw [this]; simp [init, resumed]
+
+theorem held_change1 {s s' : State} {i : Nat} (hl : s'.objs.length = s.objs.length) (hi : i < s.objs.length)
+    (ho : ∀ k, k ≠ i → handles s' k = handles s k) (h : Ptr) :
+    (held s').count h + (handles s i).count h = (held s).count h + (handles s' i).count h := by
+  simp only [held, hl]; exact count_heldAll_change1 hi ho h
+
+theorem held_change2 {s s' : State} {i j : Nat} (hl : s'.objs.length = s.objs.length) (hij : i ≠ j)
+    (hi : i < s.objs.length) (hj : j < s.objs.length)
+    (ho : ∀ k, k ≠ i → k ≠ j → handles s' k = handles s k) (h : Ptr) :
+    (held s').count h + (handles s i).count h + (handles s j).count h
+      = (held s).count h + (handles s' i).count h + (handles s' j).count h := by
+  simp only [held, hl]; exact count_heldAll_change2 hij hi hj ho h
+
+/-- a new, unflagged object appears in a vacant slot -/
+theorem own_insert {s s' : State} {i : Nat} {o' : Obj} (O : Own s) (hi : s.obj i = none)
+    (hobj : ∀ k, s'.obj k = if k = i then some o' else s.obj k) (hm : s'.mem = s.mem)
+    (hf : ¬ o'.cf % 2 = 1) (hlen : o'.inl.length = 3) (hle : o'.cf / 2 ≤ 3) : Own s' := by
+  refine ⟨?_, ?_, ?_⟩
+  · intro k ok hk; rw [hobj] at hk
+    by_cases e : k = i
+    · simp only [e, if_true, Option.some.injEq] at hk; subst hk
+      exact ⟨hlen, fun _ => hle, fun hh => absurd hh hf⟩
+    · simp only [e, if_false] at hk
+      have w := O.wf k ok hk
+      exact ⟨w.inl_len, w.inl_le, by rw [hm]; exact w.ext_ok⟩
+  · intro k l ok ol hk hl hfk hfl e
+    rw [hobj] at hk hl
+    by_cases ek : k = i
+    · simp only [ek, if_true, Option.some.injEq] at hk; subst hk; exact absurd hfk hf
+    · by_cases el : l = i
+      · simp only [el, if_true, Option.some.injEq] at hl; subst hl; exact absurd hfl hf
+      · simp only [ek, if_false] at hk; simp only [el, if_false] at hl
+        exact O.excl k l ok ol hk hl hfk hfl e
+  · intro a c hc; rw [hm] at hc
+    obtain ⟨k, ok, h1, h2, h3⟩ := O.owned a c hc
+    have : k ≠ i := by intro e; subst e; rw [hi] at h1; cases h1
+    exact ⟨k, ok, by rw [hobj]; simp [this, h1], h2, h3⟩
+
+/-- an unflagged object disappears -/
+theorem own_remove {s s' : State} {i : Nat} {o : Obj} (O : Own s) (hi : s.obj i = some o)
+    (hobj : ∀ k, s'.obj k = if k = i then none else s.obj k) (hm : s'.mem = s.mem)
+    (hf : ¬ o.cf % 2 = 1) : Own s' := by
+  refine ⟨?_, ?_, ?_⟩
+  · intro k ok hk; rw [hobj] at hk
+    by_cases e : k = i
+    · simp [e] at hk
+    · simp only [e, if_false] at hk
+      have w := O.wf k ok hk
+      exact ⟨w.inl_len, w.inl_le, by rw [hm]; exact w.ext_ok⟩
+  · intro k l ok ol hk hl hfk hfl e
+    rw [hobj] at hk hl
+    by_cases ek : k = i
+    · simp [ek] at hk
+    · by_cases el : l = i
+      · simp [el] at hl
+      · simp only [ek, if_false] at hk; simp only [el, if_false] at hl
+        exact O.excl k l ok ol hk hl hfk hfl e
+  · intro a c hc; rw [hm] at hc
+    obtain ⟨k, ok, h1, h2, h3⟩ := O.owned a c hc
+    have : k ≠ i := by intro e; subst e; rw [hi] at h1; cases h1; exact hf h2
+    exact ⟨k, ok, by rw [hobj]; simp [this, h1], h2, h3⟩
+
+theorem moveFrom_flag (oj : Obj) (t : Bool) (v : Nat) : (moveFrom oj t v).cf = oj.cf := by
+  unfold moveFrom; split <;> rfl
+
+/-- the move constructor: the block (if any) changes owner -/
+theorem own_move {s : State} {i j : Nat} {oj : Obj} (O : Own s) (hi : s.obj i = none) (hil : i < s.objs.length)
+    (hj : s.obj j = some oj) (t : Bool) (v : Nat) : Own (stepMove s i j t v oj) := by
+  have hjl := obj_lt hj
+  have hij : i ≠ j := by intro e; subst e; rw [hi] at hj; cases hj
+  have hobj : ∀ k, (stepMove s i j t v oj).obj k
+      = if k = j then some { oj with cf := 0 } else if k = i then some (moveFrom oj t v) else s.obj k := by
+    intro k
+    simp only [stepMove]
+    rw [obj_setObj _ j _ k (by simpa using hjl), obj_setObj _ i _ k hil]
+  have wj := O.wf j oj hj
+  have hm : (stepMove s i j t v oj).mem = s.mem := rfl
+  refine ⟨?_, ?_, ?_⟩
+  · intro k ok hk; rw [hobj] at hk
+    by_cases ekj : k = j
+    · simp only [ekj, if_true, Option.some.injEq] at hk; subst hk
+      exact ⟨wj.inl_len, fun _ => by show 0 / 2 ≤ 3; omega, fun hh => by cases hh⟩
+    · by_cases eki : k = i
+      · simp only [eki, if_true, if_false, Option.some.injEq, hij] at hk; subst hk
+        unfold moveFrom
+        split
+        · exact ⟨rfl, fun hh => by simp_all, fun _ => by rw [hm]; exact wj.ext_ok ‹_›⟩
+        · exact ⟨wj.inl_len, fun _ => wj.inl_le (by omega), fun hh => by simp_all⟩
+      · simp only [ekj, eki, if_false] at hk
+        have w := O.wf k ok hk
+        exact ⟨w.inl_len, w.inl_le, by rw [hm]; exact w.ext_ok⟩
+  · -- a flagged object in the new state is either an old flagged object other than j, or `i` carrying j's block
+    have key : ∀ k ok, (stepMove s i j t v oj).obj k = some ok → ok.cf % 2 = 1 →
+        (k ≠ j ∧ k ≠ i ∧ s.obj k = some ok) ∨ (k = i ∧ oj.cf % 2 = 1 ∧ ok.ext = oj.ext) := by
+      intro k ok hk hfk; rw [hobj] at hk
+      by_cases ekj : k = j
+      · simp only [ekj, if_true, Option.some.injEq] at hk; subst hk; cases hfk
+      · by_cases eki : k = i
+        · simp only [eki, if_true, if_false, Option.some.injEq, hij] at hk; subst hk
+          right
+          rw [moveFrom_flag] at hfk
+          exact ⟨eki, hfk, by simp [moveFrom, hfk]⟩
+        · simp only [ekj, eki, if_false] at hk; exact Or.inl ⟨ekj, eki, hk⟩
+    intro k l ok ol hk hl hfk hfl e
+    rcases key k ok hk hfk with ⟨k1, k2, k3⟩ | ⟨k1, k2, k3⟩ <;> rcases key l ol hl hfl with ⟨l1, l2, l3⟩ | ⟨l1, l2, l3⟩
+    · exact O.excl k l ok ol k3 l3 hfk hfl e
+    · exact (k1 (O.excl k j ok oj k3 hj hfk l2 (e.trans l3))).elim
+    · exact (l1 (O.excl l j ol oj l3 hj hfl k2 (e.symm.trans k3))).elim
+    · rw [k1, l1]
+  · intro a c hc; rw [hm] at hc
+    obtain ⟨k, ok, h1, h2, h3⟩ := O.owned a c hc
+    by_cases ekj : k = j
+    · subst ekj; rw [hj] at h1; cases h1
+      refine ⟨i, moveFrom oj t v, by rw [hobj]; simp [hij], by rw [moveFrom_flag]; exact h2, ?_⟩
+      simp [moveFrom, h2, h3]
+    · have eki : k ≠ i := by intro e; subst e; rw [hi] at h1; cases h1
+      exact ⟨k, ok, by rw [hobj]; simp [ekj, eki, h1], h2, h3⟩
+
+theorem vacant_iff {s : State} {i : Nat} : vacant s i = true ↔ i < s.objs.length ∧ s.obj i = none := by
+  simp [vacant, Option.isNone_iff_eq_none]
+
+macro "cnt" : tactic => `(tactic| simp only [List.count_append, List.count_cons, List.count_nil, beq_iff_eq,
+  List.append_nil, List.nil_append] at *)
+
+/-! ### constructors -/
+theorem ctor_spec {s : State} (I : Inv s) {i : Nat} (hv : vacant s i = true) (o0 : Obj) (gs : List Ptr)
+    (hf : ¬ o0.cf % 2 = 1) (hlen : o0.inl.length = 3) (hle : o0.cf / 2 ≤ 3) (hg : o0.inl.take (o0.cf / 2) = gs) :
+    Inv (setObj { s with given := s.given ++ gs } i (some o0))
+    ∧ handles (setObj { s with given := s.given ++ gs } i (some o0)) i = gs
+    ∧ ∀ k, k ≠ i → handles (setObj { s with given := s.given ++ gs } i (some o0)) k = handles s k := by
+  obtain ⟨hil, hin⟩ := vacant_iff.1 hv
+  have hobj : ∀ k, (setObj { s with given := s.given ++ gs } i (some o0)).obj k = if k = i then some o0 else s.obj k :=
+    fun k => obj_setObj _ i _ k hil
+  have hi' : handles (setObj { s with given := s.given ++ gs } i (some o0)) i = gs := by
+    simp [handles, hobj i, handlesOf, hf, hg]
+  have ho' : ∀ k, k ≠ i → handles (setObj { s with given := s.given ++ gs } i (some o0)) k = handles s k := by
+    intro k hk; exact handles_congr (by rw [hobj k]; simp [hk]) (fun _ _ _ => rfl)
+  refine ⟨⟨heapOk_of_eq I.heap rfl rfl rfl [] (by simp), own_insert I.own hin hobj rfl hf hlen hle, I.idle, ?_⟩, hi', ho'⟩
+  intro h
+  have c := I.conserve h
+  have k := held_change1 (s := s) (s' := setObj { s with given := s.given ++ gs } i (some o0)) (by simp) hil ho' h
+  rw [hi', handles_none hin] at k
+  simp only [setObj_given, setObj_queue, setObj_popped, List.count_append]
+  have : resumed (setObj { s with given := s.given ++ gs } i (some o0)) = resumed s := rfl
+  rw [this]; cnt; omega
+
+/-! ### move construction -/
+theorem move_spec {s : State} (I : Inv s) {i j : Nat} {oj : Obj} (hv : vacant s i = true) (hj : s.obj j = some oj)
+    (t : Bool) (v : Nat) :
+    Inv (stepMove s i j t v oj) ∧ handles (stepMove s i j t v oj) i = handles s j
+    ∧ handles (stepMove s i j t v oj) j = []
+    ∧ (∀ k, k ≠ i → k ≠ j → handles (stepMove s i j t v oj) k = handles s k)
+    ∧ Quiet s (stepMove s i j t v oj) := by
+  obtain ⟨hil, hin⟩ := vacant_iff.1 hv
+  have hjl := obj_lt hj
+  have hij : i ≠ j := by intro e; subst e; rw [hin] at hj; cases hj
+  have hobj : ∀ k, (stepMove s i j t v oj).obj k
+      = if k = j then some { oj with cf := 0 } else if k = i then some (moveFrom oj t v) else s.obj k := by
+    intro k
+    simp only [stepMove]
+    rw [obj_setObj _ j _ k (by simpa using hjl), obj_setObj _ i _ k hil]
+  have hQ : Quiet s (stepMove s i j t v oj) := ⟨by simp [stepMove], rfl, rfl, rfl, rfl, rfl⟩
+  have h1 : handles (stepMove s i j t v oj) i = handles s j := by
+    simp only [handles, hobj i, if_neg hij, if_true, hj]
+    simp only [handlesOf, moveFrom_flag, cellsOf]
+    unfold moveFrom
+    split <;> rfl
+  have h2 : handles (stepMove s i j t v oj) j = [] := by
+    simp [handles, hobj j, handlesOf]
+  have h3 : ∀ k, k ≠ i → k ≠ j → handles (stepMove s i j t v oj) k = handles s k := by
+    intro k hki hkj; exact handles_congr (by rw [hobj k]; simp [hki, hkj]) (fun _ _ _ => rfl)
+  refine ⟨⟨heapOk_of_eq I.heap rfl rfl rfl [] (by simp [stepMove]), own_move I.own hin hil hj t v, I.idle, ?_⟩, h1, h2, h3, hQ⟩
+  intro h
+  have c := I.conserve h
+  have k := held_change2 hQ.len hij hil hjl h3 h
+  rw [h1, h2, handles_none hin] at k
+  rw [hQ.given, hQ.queue, hQ.popped, hQ.resumed]; cnt; omega
+
+/-! ### merging -/
+theorem merge_spec {s : State} (I : Inv s) {i j : Nat} {oi oj : Obj} (hi : s.obj i = some oi) (hj : s.obj j = some oj)
+    (hij : i ≠ j) :
+    Inv (stepMerge s i j oj) ∧ handles (stepMerge s i j oj) i = handles s i ++ handles s j
+    ∧ handles (stepMerge s i j oj) j = []
+    ∧ (∀ k, k ≠ i → k ≠ j → handles (stepMerge s i j oj) k = handles s k)
+    ∧ Quiet s (stepMerge s i j oj)
+    ∧ (∃ oi', (stepMerge s i j oj).obj i = some oi' ∧ oi'.typed = oi.typed ∧ oi'.value = oi.value)
+    ∧ (stepMerge s i j oj).obj j = some { oj with cf := 0 }
+    ∧ (∀ k, k ≠ i → k ≠ j → (stepMerge s i j oj).obj k = s.obj k) := by
+  have A := addAll_spec I.heap I.own hi (handlesOf s oj)
+  have hj1 : (addAll s i (handlesOf s oj)).obj j = some oj := by rw [A.obj_other j (Ne.symm hij)]; exact hj
+  have C := clearInternal_spec A.heap A.own hj1
+  have hil := obj_lt hi
+  have hjl := obj_lt hj
+  have hQ : Quiet s (stepMerge s i j oj) := A.quiet.trans C.quiet
+  have h1 : handles (stepMerge s i j oj) i = handles s i ++ handles s j := by
+    show handles (clearInternal _ j oj) i = _
+    rw [C.handles_other i hij, A.handles_self hi]; simp [handles, hj]
+  have h2 : handles (stepMerge s i j oj) j = [] := C.handles_self
+  have h3 : ∀ k, k ≠ i → k ≠ j → handles (stepMerge s i j oj) k = handles s k := by
+    intro k hki hkj
+    show handles (clearInternal _ j oj) k = _
+    rw [C.handles_other k hkj, A.handles_other hki]
+  refine ⟨⟨C.heap, C.own, ?_, ?_⟩, h1, h2, h3, hQ, ?_, ?_, ?_⟩
+  · intro ha; rw [hQ.queue]; exact I.idle (by rw [← hQ.active]; exact ha)
+  · intro h
+    have c := I.conserve h
+    have k := held_change2 hQ.len hij hil hjl h3 h
+    rw [h1, h2] at k
+    rw [hQ.given, hQ.queue, hQ.popped, hQ.resumed]; cnt; omega
+  · obtain ⟨o1, e1, e2, e3, -⟩ := A.obj_i
+    exact ⟨o1, by show (clearInternal _ j oj).obj i = _; rw [C.obj i]; simp [hij, e1], e2, e3⟩
+  · show (clearInternal _ j oj).obj j = _; rw [C.obj j]; simp
+  · intro k hki hkj
+    show (clearInternal _ j oj).obj k = _; rw [C.obj k]; simp [hkj, A.obj_other k hki]
+
+@[simp] theorem resumed_resumeAll (s : State) (hs : List Ptr) : resumed (resumeAll s hs) = resumed s ++ hs := by
+  simp only [resumed, resumeAll, List.filterMap_append, filterMap_res_map]
+@[simp] theorem resumed_enqueue (s : State) (hs : List Ptr) : resumed (enqueue s hs) = resumed s := rfl
+@[simp] theorem resumed_flushAll (s : State) : resumed (flushAll s) = resumed s ++ s.queue := by
+  simp only [resumed, flushAll, List.filterMap_append, filterMap_res_map]
+@[simp] theorem resumed_flushUntil (s : State) (me : Ptr) :
+    resumed (flushUntil s me) = resumed s ++ s.queue.take (s.queue.idxOf me + 1) := by
+  simp only [resumed, flushUntil, List.filterMap_append, filterMap_res_map]
+
+/-! ### `sp << h` -/
+theorem addH_spec {s : State} (I : Inv s) {i : Nat} {o : Obj} (hi : s.obj i = some o) (h : Ptr) :
+    Inv (add { s with given := s.given ++ [h] } i h)
+    ∧ handles (add { s with given := s.given ++ [h] } i h) i = handles s i ++ [h]
+    ∧ (∀ k, k ≠ i → handles (add { s with given := s.given ++ [h] } i h) k = handles s k)
+    ∧ (∃ o', (add { s with given := s.given ++ [h] } i h).obj i = some o' ∧ o'.typed = o.typed ∧ o'.value = o.value)
+    ∧ (∀ k, k ≠ i → (add { s with given := s.given ++ [h] } i h).obj k = s.obj k) := by
+  have H0 : HeapOk { s with given := s.given ++ [h] } := heapOk_of_eq I.heap rfl rfl rfl [] (by simp)
+  have O0 : Own { s with given := s.given ++ [h] } := own_of_eq I.own rfl rfl
+  have hi0 : ({ s with given := s.given ++ [h] } : State).obj i = some o := hi
+  have A := add_spec H0 O0 hi0 h
+  have h1 : handles (add { s with given := s.given ++ [h] } i h) i = handles s i ++ [h] := by
+    rw [A.handles_self hi0]; rfl
+  have h2 : ∀ k, k ≠ i → handles (add { s with given := s.given ++ [h] } i h) k = handles s k := by
+    intro k hk; rw [A.handles_other hk]; rfl
+  refine ⟨⟨A.heap, A.own, ?_, ?_⟩, h1, h2, ?_, A.obj_other⟩
+  · intro ha; rw [A.queue]; exact I.idle (by rw [← A.active]; exact ha)
+  · intro x
+    have c := I.conserve x
+    have k := held_change1 (s := s) A.len (obj_lt hi) h2 x
+    rw [h1] at k
+    rw [A.given, A.queue, A.popped, A.resumed]
+    show List.count x (s.given ++ [h]) = _ + List.count x s.queue + List.count x (resumed s) + _
+    cnt; omega
+  · obtain ⟨o1, e1, e2, e3, -⟩ := A.obj_i; exact ⟨o1, e1, e2, e3⟩
+
+/-! ### `pop()` -/
+theorem handlesOf_pop {s : State} {o : Obj} (w : ObjWf s o) (hc : o.cf / 2 ≠ 0) :
+    handlesOf s o = handlesOf s { o with cf := o.cf - 2 } ++ [popValue s o] := by
+  have h2 : 2 ≤ o.cf := by omega
+  have hp : (o.cf - 2) % 2 = o.cf % 2 := by omega
+  have hd : o.cf / 2 = (o.cf - 2) / 2 + 1 := by omega
+  have hd' : o.cf / 2 - 1 = (o.cf - 2) / 2 := by omega
+  simp only [handlesOf, popValue, hp, hd']
+  by_cases hf : o.cf % 2 = 1
+  · obtain ⟨c, hg, hlen, hle, -⟩ := w.ext_ok hf
+    simp only [hf, if_true, cellsOf, hg, Option.getD_some]
+    rw [hd]; exact take_succ_getD _ _ _ (by omega)
+  · simp only [hf, if_false]
+    have := w.inl_le (by omega)
+    rw [hd]; exact take_succ_getD _ _ _ (by rw [w.inl_len]; omega)
+
+/-- decrementing the count of object `i` (the first statement of `pop()`) -/
+theorem dec_spec {s : State} (H : HeapOk s) (O : Own s) {i : Nat} {o : Obj} (hi : s.obj i = some o) (hc : o.cf / 2 ≠ 0) :
+    HeapOk (setObj s i (some { o with cf := o.cf - 2 })) ∧ Own (setObj s i (some { o with cf := o.cf - 2 }))
+    ∧ handles s i = handles (setObj s i (some { o with cf := o.cf - 2 })) i ++ [popValue s o]
+    ∧ (∀ k, k ≠ i → handles (setObj s i (some { o with cf := o.cf - 2 })) k = handles s k)
+    ∧ (∀ k, (setObj s i (some { o with cf := o.cf - 2 })).obj k = if k = i then some { o with cf := o.cf - 2 } else s.obj k) := by
+  have hil := obj_lt hi
+  have w := O.wf i o hi
+  have hobj : ∀ k, (setObj s i (some { o with cf := o.cf - 2 })).obj k = if k = i then some { o with cf := o.cf - 2 } else s.obj k :=
+    fun k => obj_setObj _ i _ k hil
+  have hp : (o.cf - 2) % 2 = o.cf % 2 := by omega
+  refine ⟨heapOk_of_eq H rfl rfl rfl [] (by simp), ?_, ?_, ?_, hobj⟩
+  · refine own_step O hi hobj (fun a _ _ => rfl) ⟨w.inl_len, ?_, ?_⟩ ?_ ?_
+    · intro hh
+      have hh' : (o.cf - 2) % 2 = 0 := hh
+      have := w.inl_le (by omega)
+      show (o.cf - 2) / 2 ≤ 3; omega
+    · intro hh
+      have hh' : (o.cf - 2) % 2 = 1 := hh
+      obtain ⟨c, hg, hlen, hle, hpos⟩ := w.ext_ok (by omega)
+      exact ⟨c, hg, hlen, by show (o.cf - 2) / 2 ≤ o.cap; omega, hpos⟩
+    · intro hh; have hh' : (o.cf - 2) % 2 = 1 := hh; exact Or.inl ⟨by omega, rfl⟩
+    · intro hh; exact Or.inl ⟨by show (o.cf - 2) % 2 = 1; omega, rfl⟩
+  · simp only [handles, hi, hobj i, if_true]
+    rw [handlesOf_pop w hc]; rfl
+  · intro k hk; exact handles_congr (by rw [hobj k]; simp [hk]) (fun _ _ _ => rfl)
+
+theorem pop_spec {s : State} (I : Inv s) {i : Nat} {o : Obj} (hi : s.obj i = some o) (hc : o.cf / 2 ≠ 0) :
+    Inv { setObj s i (some { o with cf := o.cf - 2 }) with popped := s.popped ++ [popValue s o] }
+    ∧ handles s i = handles { setObj s i (some { o with cf := o.cf - 2 }) with popped := s.popped ++ [popValue s o] } i
+        ++ [popValue s o]
+    ∧ (∀ k, k ≠ i → handles { setObj s i (some { o with cf := o.cf - 2 }) with popped := s.popped ++ [popValue s o] } k
+        = handles s k) := by
+  obtain ⟨H1, O1, h1, h2, -⟩ := dec_spec I.heap I.own hi hc
+  have e : ∀ k, handles { setObj s i (some { o with cf := o.cf - 2 }) with popped := s.popped ++ [popValue s o] } k
+      = handles (setObj s i (some { o with cf := o.cf - 2 })) k := fun k => handles_of_eq rfl rfl k
+  have h2' : ∀ k, k ≠ i → handles { setObj s i (some { o with cf := o.cf - 2 }) with popped := s.popped ++ [popValue s o] } k
+      = handles s k := fun k hk => by rw [e k, h2 k hk]
+  refine ⟨⟨heapOk_of_eq H1 rfl rfl rfl [] (by simp), own_of_eq O1 rfl rfl, I.idle, ?_⟩, by rw [e i]; exact h1, h2'⟩
+  intro x
+  have c := I.conserve x
+  have k := held_change1 (s := s) (s' := { setObj s i (some { o with cf := o.cf - 2 }) with popped := s.popped ++ [popValue s o] })
+    (by simp) (obj_lt hi) h2' x
+  rw [h1, e i] at k
+  show List.count x s.given = _ + List.count x s.queue + List.count x (resumed s) + List.count x (s.popped ++ [popValue s o])
+  cnt; omega
+
+/-! ### consumers -/
+
+/-- a state that differs from `s` only by resumptions, queue content and ghost lists -/
+structure SameStore (s X : State) : Prop where
+  objs : X.objs = s.objs
+  mem : X.mem = s.mem
+  live : X.live = s.live
+  nextAddr : X.nextAddr = s.nextAddr
+
+theorem SameStore.heap {s X : State} (S : SameStore s X) (H : HeapOk s) (R : List Ptr)
+    (ht : X.trace = s.trace ++ R.map Ev.res) : HeapOk X := heapOk_of_eq H S.mem S.live S.nextAddr R ht
+theorem SameStore.own {s X : State} (S : SameStore s X) (O : Own s) : Own X := own_of_eq O S.objs S.mem
+theorem SameStore.obj {s X : State} (S : SameStore s X) (k : Nat) : X.obj k = s.obj k := by
+  simp [State.obj, S.objs]
+theorem SameStore.handles {s X : State} (S : SameStore s X) (k : Nat) : handles X k = handles s k :=
+  handles_of_eq S.objs S.mem k
+
+/-- the common part of `clear()`, the destructor and `suspend_now()`: the handles of object `i` went to the
+queue (`Q`) or were resumed (`R`), then `clear_internal()` -/
+theorem consume_spec {s X : State} (I : Inv s) {i : Nat} {o : Obj} (hi : s.obj i = some o) (S : SameStore s X)
+    (Q R : List Ptr) (hq : X.queue = s.queue ++ Q) (ht : X.trace = s.trace ++ R.map Ev.res)
+    (hg : X.given = s.given) (hp : X.popped = s.popped) (ha : X.active = s.active)
+    (hQR : ∀ x, Q.count x + R.count x = (handles s i).count x) (hidle : s.active = false → Q = []) :
+    Inv (clearInternal X i o) ∧ handles (clearInternal X i o) i = []
+    ∧ (∀ k, k ≠ i → handles (clearInternal X i o) k = handles s k)
+    ∧ (clearInternal X i o).queue = s.queue ++ Q ∧ resumed (clearInternal X i o) = resumed s ++ R
+    ∧ (∀ k, (clearInternal X i o).obj k = if k = i then some { o with cf := 0 } else s.obj k)
+    ∧ (clearInternal X i o).active = s.active ∧ (clearInternal X i o).objs.length = s.objs.length := by
+  have hiX : X.obj i = some o := by rw [S.obj]; exact hi
+  have C := clearInternal_spec (S.heap I.heap R ht) (S.own I.own) hiX
+  have h2 : ∀ k, k ≠ i → handles (clearInternal X i o) k = handles s k := by
+    intro k hk; rw [C.handles_other k hk, S.handles]
+  have hres : resumed (clearInternal X i o) = resumed s ++ R := by
+    rw [C.quiet.resumed]; simp only [resumed, ht, List.filterMap_append, filterMap_res_map]
+  have hlen : (clearInternal X i o).objs.length = s.objs.length := by rw [C.quiet.len, S.objs]
+  refine ⟨⟨C.heap, C.own, ?_, ?_⟩, C.handles_self, h2, by rw [C.quiet.queue, hq], hres, ?_,
+    by rw [C.quiet.active, ha], hlen⟩
+  · intro hact
+    rw [C.quiet.active, ha] at hact
+    rw [C.quiet.queue, hq, hidle hact, I.idle hact]; rfl
+  · intro x
+    have c := I.conserve x
+    have k := held_change1 (s := s) hlen (obj_lt hi) h2 x
+    rw [C.handles_self] at k
+    have := hQR x
+    rw [C.quiet.given, C.quiet.queue, C.quiet.popped, hres, hg, hq, hp]; cnt; omega
+  · intro k; rw [C.obj k, S.obj]
+
+theorem handles_of_count_zero {s : State} {i : Nat} {o : Obj} (hi : s.obj i = some o) (hc : o.cf / 2 = 0) :
+    handles s i = [] := by
+  simp [handles, hi, handlesOf, hc]
+
+/-- `clear()` / `suspend_now()` -/
+theorem suspendNow_spec {s : State} (I : Inv s) {i : Nat} {o : Obj} (hi : s.obj i = some o) :
+    Inv (suspendNow s i o) ∧ handles (suspendNow s i o) i = []
+    ∧ (∀ k, k ≠ i → handles (suspendNow s i o) k = handles s k)
+    ∧ (suspendNow s i o).queue = s.queue ++ (if s.active then handles s i else [])
+    ∧ resumed (suspendNow s i o) = resumed s ++ (if s.active then [] else handles s i)
+    ∧ (∀ k, (suspendNow s i o).obj k = if k = i then some { o with cf := 0 } else s.obj k)
+    ∧ (suspendNow s i o).active = s.active ∧ (suspendNow s i o).objs.length = s.objs.length := by
+  have hh : handles s i = handlesOf s o := by simp [handles, hi]
+  unfold suspendNow
+  by_cases hc : o.cf / 2 = 0
+  · have h0 := handles_of_count_zero hi hc
+    have r := consume_spec I hi (X := s) ⟨rfl, rfl, rfl, rfl⟩ [] [] (by simp) (by simp) rfl rfl rfl (by simp [h0]) (fun _ => rfl)
+    simp only [hc, if_true, h0, ite_self]
+    exact r
+  · simp only [hc, if_false]
+    by_cases ha : s.active = true
+    · have r := consume_spec I hi (X := enqueue s (handlesOf s o)) ⟨rfl, rfl, rfl, rfl⟩ (handles s i) []
+        (by rw [hh]; rfl) (by simp [enqueue]) rfl rfl rfl (by simp) (fun h => by rw [ha] at h; cases h)
+      simp only [ha, if_true]
+      rw [ha] at r
+      exact r
+    · have ha' : s.active = false := by simpa using ha
+      have r := consume_spec I hi (X := resumeAll s (handlesOf s o)) ⟨rfl, rfl, rfl, rfl⟩ [] (handles s i)
+        (by simp [resumeAll]) (by rw [hh]; rfl) rfl rfl rfl (by simp) (fun _ => rfl)
+      simp only [ha', Bool.false_eq_true, if_false]
+      rw [ha'] at r
+      exact r
+
+/-- removing an empty, unflagged object -/
+theorem remove_spec {s : State} (I : Inv s) {i : Nat} {o : Obj} (hi : s.obj i = some o) (hz : o.cf = 0) :
+    Inv (setObj s i none) ∧ (∀ k, k ≠ i → handles (setObj s i none) k = handles s k)
+    ∧ (∀ k, (setObj s i none).obj k = if k = i then none else s.obj k) := by
+  have hil := obj_lt hi
+  have hobj : ∀ k, (setObj s i none).obj k = if k = i then none else s.obj k := fun k => obj_setObj _ i _ k hil
+  have h2 : ∀ k, k ≠ i → handles (setObj s i none) k = handles s k := by
+    intro k hk; exact handles_congr (by rw [hobj k]; simp [hk]) (fun _ _ _ => rfl)
+  refine ⟨⟨heapOk_of_eq I.heap rfl rfl rfl [] (by simp), own_remove I.own hi hobj rfl (by rw [hz]; decide), I.idle, ?_⟩, h2, hobj⟩
+  intro x
+  have c := I.conserve x
+  have k := held_change1 (s := s) (s' := setObj s i none) (by simp) hil h2 x
+  rw [handles_none (s := setObj s i none) (by rw [hobj i]; simp), handles_of_count_zero hi (by rw [hz])] at k
+  show List.count x s.given = _ + List.count x s.queue + List.count x (resumed s) + List.count x s.popped
+  cnt; omega
+
+/-- the destructor -/
+theorem dtor_spec {s : State} (I : Inv s) {i : Nat} {o : Obj} (hi : s.obj i = some o) :
+    Inv (setObj (if o.cf = 0 then s else suspendNow s i o) i none)
+    ∧ (setObj (if o.cf = 0 then s else suspendNow s i o) i none).obj i = none
+    ∧ (∀ k, k ≠ i → handles (setObj (if o.cf = 0 then s else suspendNow s i o) i none) k = handles s k)
+    ∧ (∀ k, k ≠ i → (setObj (if o.cf = 0 then s else suspendNow s i o) i none).obj k = s.obj k)
+    ∧ (setObj (if o.cf = 0 then s else suspendNow s i o) i none).queue = s.queue ++ (if s.active then handles s i else [])
+    ∧ resumed (setObj (if o.cf = 0 then s else suspendNow s i o) i none) = resumed s ++ (if s.active then [] else handles s i)
+    ∧ (setObj (if o.cf = 0 then s else suspendNow s i o) i none).active = s.active
+    ∧ (setObj (if o.cf = 0 then s else suspendNow s i o) i none).objs.length = s.objs.length := by
+  by_cases hz : o.cf = 0
+  · simp only [hz, if_true]
+    obtain ⟨I', h2, hobj⟩ := remove_spec I hi hz
+    have h0 := handles_of_count_zero hi (by rw [hz])
+    refine ⟨I', by rw [hobj]; simp, h2, fun k hk => by rw [hobj]; simp [hk], by simp [h0], ?_, rfl, by simp⟩
+    simp [h0]; rfl
+  · simp only [hz, if_false]
+    obtain ⟨I1, h1, h2, hq, hr, hobj, ha, hl⟩ := suspendNow_spec I hi
+    have hi1 : (suspendNow s i o).obj i = some { o with cf := 0 } := by rw [hobj]; simp
+    obtain ⟨I', h2', hobj'⟩ := remove_spec I1 hi1 rfl
+    refine ⟨I', by rw [hobj']; simp, fun k hk => by rw [h2' k hk, h2 k hk], ?_, by simpa using hq, ?_, by simpa using ha, by simpa using hl⟩
+    · intro k hk; rw [hobj']; simp [hk, hobj k]
+    · rw [← hr]; rfl
+
+theorem count_take_drop (l : List Ptr) (n : Nat) (x : Ptr) : (l.take n).count x + (l.drop n).count x = l.count x := by
+  rw [← List.count_append, List.take_append_drop]
+
+theorem inv_flushUntil {s : State} (I : Inv s) (me : Ptr) : Inv (flushUntil s me) := by
+  refine ⟨heapOk_of_eq I.heap rfl rfl rfl _ rfl, own_of_eq I.own rfl rfl, ?_, ?_⟩
+  · intro ha
+    have : s.queue = [] := I.idle ha
+    simp [flushUntil, this]
+  · intro x
+    have c := I.conserve x
+    have k := count_take_drop s.queue (s.queue.idxOf me + 1) x
+    rw [resumed_flushUntil, held_of_eq (s' := flushUntil s me) (s := s) rfl rfl]
+    show List.count x s.given = _ + List.count x (s.queue.drop (s.queue.idxOf me + 1)) + _ + List.count x s.popped
+    cnt; omega
+
+theorem inv_flushAll {s : State} (I : Inv s) (b : Bool) : Inv { flushAll s with active := b } := by
+  refine ⟨heapOk_of_eq I.heap rfl rfl rfl s.queue rfl, own_of_eq I.own rfl rfl, fun _ => rfl, ?_⟩
+  intro x
+  have c := I.conserve x
+  have e : resumed { flushAll s with active := b } = resumed s ++ s.queue := resumed_flushAll s
+  rw [e, held_of_eq (s' := { flushAll s with active := b }) (s := s) rfl rfl]
+  show List.count x s.given = _ + List.count x [] + _ + List.count x s.popped
+  cnt; omega
+
+/-- `await_suspend` under an active queue, including the symmetric transfer to the popped handle -/
+theorem awaitQueue_spec {s : State} (I : Inv s) (hact : s.active = true) {i : Nat} {o : Obj} (hi : s.obj i = some o)
+    (hc : o.cf / 2 ≠ 0) (me : Ptr) :
+    Inv (resumeAll (awaitQueue s i o me) [popValue s o])
+    ∧ handles s i = handlesOf s { o with cf := o.cf - 2 } ++ [popValue s o]
+    ∧ handles (resumeAll (awaitQueue s i o me) [popValue s o]) i = []
+    ∧ (∀ k, k ≠ i → handles (resumeAll (awaitQueue s i o me) [popValue s o]) k = handles s k)
+    ∧ (resumeAll (awaitQueue s i o me) [popValue s o]).queue
+        = s.queue ++ (handlesOf s { o with cf := o.cf - 2 } ++ awaitExtra s o me)
+    ∧ resumed (resumeAll (awaitQueue s i o me) [popValue s o]) = resumed s ++ [popValue s o]
+    ∧ (∀ k, (resumeAll (awaitQueue s i o me) [popValue s o]).obj k
+        = if k = i then some { o with cf := 0 } else s.obj k)
+    ∧ (resumeAll (awaitQueue s i o me) [popValue s o]).active = true
+    ∧ (resumeAll (awaitQueue s i o me) [popValue s o]).objs.length = s.objs.length := by
+  obtain ⟨H1, O1, h1, h2, hobj1⟩ := dec_spec I.heap I.own hi hc
+  have hrest : handles (setObj s i (some { o with cf := o.cf - 2 })) i = handlesOf s { o with cf := o.cf - 2 } := by
+    simp only [handles, hobj1 i, if_true]; rfl
+  rw [hrest] at h1
+  generalize hX : enqueue { setObj s i (some { o with cf := o.cf - 2 }) with given := s.given ++ awaitExtra s o me }
+      (handlesOf s { o with cf := o.cf - 2 } ++ awaitExtra s o me) = X
+  have S : SameStore (setObj s i (some { o with cf := o.cf - 2 })) X := by subst hX; exact ⟨rfl, rfl, rfl, rfl⟩
+  have hXq : X.queue = s.queue ++ (handlesOf s { o with cf := o.cf - 2 } ++ awaitExtra s o me) := by subst hX; rfl
+  have hXg : X.given = s.given ++ awaitExtra s o me := by subst hX; rfl
+  have hXp : X.popped = s.popped := by subst hX; rfl
+  have hXa : X.active = s.active := by subst hX; rfl
+  have hXr : resumed X = resumed s := by subst hX; rfl
+  have hiX : X.obj i = some { o with cf := o.cf - 2 } := by rw [S.obj, hobj1]; simp
+  have C := clearInternal_spec (S.heap H1 [] (by subst hX; simp [enqueue])) (S.own O1) hiX
+  have hst : awaitQueue s i o me = clearInternal X i { o with cf := o.cf - 2 } := by subst hX; rfl
+  rw [hst]
+  generalize hY : clearInternal X i { o with cf := o.cf - 2 } = Y at C
+  have e : ∀ k, handles (resumeAll Y [popValue s o]) k = handles Y k := fun k => handles_of_eq rfl rfl k
+  have g2 : ∀ k, k ≠ i → handles (resumeAll Y [popValue s o]) k = handles s k := by
+    intro k hk; rw [e, C.handles_other k hk, S.handles, h2 k hk]
+  have g1 : handles (resumeAll Y [popValue s o]) i = [] := by rw [e]; exact C.handles_self
+  have hlen : (resumeAll Y [popValue s o]).objs.length = s.objs.length := by
+    show Y.objs.length = _; rw [C.quiet.len, S.objs]; simp
+  have hq : (resumeAll Y [popValue s o]).queue = s.queue ++ (handlesOf s { o with cf := o.cf - 2 } ++ awaitExtra s o me) := by
+    show Y.queue = _; rw [C.quiet.queue, hXq]
+  have hr : resumed (resumeAll Y [popValue s o]) = resumed s ++ [popValue s o] := by
+    rw [resumed_resumeAll, C.quiet.resumed, hXr]
+  have ha : (resumeAll Y [popValue s o]).active = true := by
+    show Y.active = _; rw [C.quiet.active, hXa, hact]
+  refine ⟨⟨heapOk_of_eq C.heap rfl rfl rfl [popValue s o] rfl, own_of_eq C.own rfl rfl, ?_, ?_⟩, h1, g1, g2, hq, hr, ?_, ha, hlen⟩
+  · intro hh; rw [ha] at hh; cases hh
+  · intro x
+    have c := I.conserve x
+    have k := held_change1 (s := s) hlen (obj_lt hi) g2 x
+    rw [g1, h1] at k
+    rw [hq, hr]
+    show List.count x Y.given = _ + _ + _ + List.count x Y.popped
+    rw [C.quiet.given, C.quiet.popped, hXg, hXp]; cnt; omega
+  · intro k
+    show Y.obj k = _
+    rw [C.obj k, S.obj, hobj1]
+    by_cases ek : k = i <;> simp [ek]
+
+theorem inv_active {s : State} (I : Inv s) : Inv { s with active := true } := by
+  refine ⟨heapOk_of_eq I.heap rfl rfl rfl [] (by simp), own_of_eq I.own rfl rfl, ?_, ?_⟩
+  · intro h; cases h
+  · intro x
+    rw [held_of_eq (s' := { s with active := true }) (s := s) rfl rfl]
+    exact I.conserve x
+
+theorem await_inv {s : State} (I : Inv s) {i : Nat} {o : Obj} (hi : s.obj i = some o) (me : Ptr) :
+    Inv (awaitObj s i o me) := by
+  unfold awaitObj
+  by_cases hc : o.cf / 2 = 0
+  · simp only [hc, if_true]; exact I
+  · simp only [hc, if_false]
+    by_cases ha : s.active = true
+    · simp only [ha, if_true]
+      exact inv_flushUntil (awaitQueue_spec I ha hi hc me).1 me
+    · have ha' : s.active = false := by simpa using ha
+      simp only [ha', Bool.false_eq_true, if_false]
+      have hi' : ({ s with active := true } : State).obj i = some o := hi
+      have := (awaitQueue_spec (inv_active I) rfl hi' hc me).1
+      exact inv_flushAll this false
+
+theorem yield_inv {s : State} (I : Inv s) (ha : s.active = true) (me : Ptr) :
+    Inv (flushUntil (enqueue { s with given := s.given ++ [me] } [me]) me) := by
+  apply inv_flushUntil
+  refine ⟨heapOk_of_eq I.heap rfl rfl rfl [] (by simp [enqueue]), own_of_eq I.own rfl rfl, ?_, ?_⟩
+  · intro h; rw [show (enqueue { s with given := s.given ++ [me] } [me]).active = s.active from rfl, ha] at h; cases h
+  · intro x
+    have c := I.conserve x
+    rw [held_of_eq (s' := enqueue { s with given := s.given ++ [me] } [me]) (s := s) rfl rfl]
+    show List.count x (s.given ++ [me]) = _ + List.count x (s.queue ++ [me]) + List.count x (resumed s) + List.count x s.popped
+    cnt; omega
+
+theorem setValue_spec {s : State} (I : Inv s) (i : Nat) (v : Nat) :
+    Inv (setValue s i v) ∧ (∀ k, handles (setValue s i v) k = handles s k) ∧ Quiet s (setValue s i v) := by
+  unfold setValue
+  cases hi : s.obj i with
+  | none => exact ⟨I, fun _ => rfl, Quiet.refl s⟩
+  | some o =>
+      simp only
+      have hil := obj_lt hi
+      have w := I.own.wf i o hi
+      have hobj : ∀ k, (setObj s i (some { o with value := v })).obj k = if k = i then some { o with value := v } else s.obj k :=
+        fun k => obj_setObj _ i _ k hil
+      have hh : ∀ k, handles (setObj s i (some { o with value := v })) k = handles s k := by
+        intro k
+        by_cases ek : k = i
+        · subst ek; simp only [handles, hobj k, if_true, hi]; rfl
+        · exact handles_congr (by rw [hobj k]; simp [ek]) (fun _ _ _ => rfl)
+      refine ⟨⟨heapOk_of_eq I.heap rfl rfl rfl [] (by simp), ?_, I.idle, ?_⟩, hh, quiet_setObj _ _ _⟩
+      · exact own_step I.own hi hobj (fun a _ _ => rfl) ⟨w.inl_len, w.inl_le, w.ext_ok⟩
+          (fun hf => Or.inl ⟨hf, rfl⟩) (fun hf => Or.inl ⟨hf, rfl⟩)
+      · intro x
+        have : held (setObj s i (some { o with value := v })) = held s := by
+          simp only [held, setObj_len]; exact heldAll_congr (fun k _ => hh k)
+        rw [this]; exact I.conserve x
+
 end Cocls.SP
